@@ -6,7 +6,7 @@
 //! Oracle: response data text (key order included) equals the reference
 //! executor's; errors only where the reference raises a completion error.
 
-use agv_common::casecheck::{first_diff, replay_fixed, run_static, CaseOutcome, Compared};
+use agv_common::casecheck::{Target, first_diff, replay_fixed, run_static, CaseOutcome, Compared};
 use agv_common::gen::GenCfg;
 use agv_common::glue::{table_json, MenuCfg};
 use agv_common::s1;
@@ -95,7 +95,7 @@ fn judge(cx: &Cx, c: &Compared, cnt: &Counters) {
 
 fn run_case(cx: &Cx, refs: &Schema, schema: &s1::S1, gcfg: &GenCfg, ch: &mut Chooser, cnt: &Counters, world_class: Class) -> Outcome {
     let menu = MenuCfg { errors: false, non_finite: true, wrong_kind: false, rich: true };
-    match run_static(refs, schema, gcfg, ch, menu, world_class, None) {
+    match run_static(refs, &Target::Static(schema), gcfg, ch, menu, world_class, None) {
         CaseOutcome::NotDoc => {
             cnt.not_doc.fetch_add(1, Ordering::Relaxed);
             Outcome::NotDoc
@@ -173,7 +173,7 @@ fn run(cx: &Cx) {
 fn replay(case: &J) -> String {
     let schema = s1::schema();
     let refs = Schema::from_sdl(s1::SDL).unwrap();
-    match replay_fixed(&refs, &schema, case) {
+    match replay_fixed(&refs, &Target::Static(&schema), case) {
         CaseOutcome::Ran(c) => format!(
             "\n query: {}\n variables: {}\n expected data: {} errors at {:?}\n got: {}",
             c.text,
